@@ -181,3 +181,10 @@ def run(chk):
     from . import guardrules
     ng_ = guardrules.check(chk, c, 'C18-G', ['core.Message.__init__', 'parser.parse_message', 'core.Message.parse_children'])
     chk.floor('refusal predicates compared (C18-G)', ng_, 1)
+
+    chk.rule('C18-D', 'decision structure of the functions this property is anchored in: every effect statement (store, call, return, '
+                   'raise) runs under the same combinations of the function\'s elementary tests as in the reviewed tree, and none '
+                   'was deleted (reference/decisions.json; compared by meaning, rewritten functions are not compared)')
+    from . import guardrules as _gr
+    nd2_ = _gr.check_decisions(chk, c, 'C18-D', lambda fq_: fq_.startswith(('core.Message.', 'core.ElementFinder.', 'parser.parse_message')))
+    chk.floor('functions compared with the decision reference (C18-D)', nd2_, 1)
